@@ -93,7 +93,8 @@ def build(ctx):
         if rc != 0:
             ctx.obligations["log"] = out
             return False
-        if not os.path.exists(os.path.join(COQ, "Makefile.coq")):
+        mk, cp = os.path.join(COQ, "Makefile.coq"), os.path.join(COQ, "_CoqProject")
+        if not os.path.exists(mk) or os.path.getmtime(mk) < os.path.getmtime(cp):
             sh("coq_makefile -f _CoqProject -o Makefile.coq", 60, COQ)
         # 1. model files (needed by extraction); 2. everything else, keep going on failure
         rc, out = sh("timeout 1500 make -f Makefile.coq -j12 theories/Harness.vo theories/KernelRun.vo", 1600, COQ)
@@ -144,6 +145,10 @@ def _without_pins(src, pid):
 
 
 EXTRA_VM_OBLIGATIONS = {"C19": [("CCT.proofs.Ed25519Vectors", "vectors_hold")]}
+# second property files holding the SEMANTIC SOURCE TIE: the functions of the package as translated from the working tree on this run
+# (Gen/Source.v), interpreted (PySrc.v), compute what the hand-written model computes.  Like the source pins these obligations belong to
+# the tie between model and code: when only they (and the pin) break, the model and its theorems are intact.
+TIE_FILES = {"C15": ["C15_src"], "C14": ["C14_src"]}
 THEOREM_RE = re.compile(r"^\s*(Theorem|Example)\s+([A-Za-z0-9_']+)", re.M)
 
 
@@ -228,6 +233,41 @@ def check_obligations(ctx, extra_files=()):
             closed.append(thm)
         else:
             open_.append((thm, out3[-300:]))
+    tie_names = []
+    for tf in TIE_FILES.get(pid, ()):
+        tsrc = os.path.join(COQ, "theories", "props", tf + ".v")
+        tn = [n for _, n in THEOREM_RE.findall(open(tsrc).read())]
+        tie_names += tn
+        names += tn
+        tprinted = re.findall(r"^Print Assumptions\s+([A-Za-z0-9_']+)\.", open(tsrc).read(), re.M)
+        printed += tprinted
+        with open(os.path.join(BUILD, ".lock"), "w") as lk:
+            fcntl.flock(lk, fcntl.LOCK_EX)
+            rc4, out4 = sh("timeout 1500 make -f Makefile.coq -j12 theories/props/%s.vo" % tf, 1600, COQ)
+            if rc4 == 0:
+                rc4, out4 = sh("timeout 600 coqc -Q theories CCT -w -notation-overridden theories/props/%s.v" % tf, 700, COQ)
+        if rc4 != 0:
+            m4 = re.search(r'File "([^"]+)", line (\d+)', out4)
+            why = (m4.group(0) if m4 else "?") + " :: " + " ".join(out4.strip().splitlines()[-3:])[:300]
+            for n in tn:
+                open_.append((n, why))
+            ctx.obligations.setdefault("first_error", "source tie %s.v no longer checks (the text of the source, interpreted, is no longer shown equal to the model): %s" % (tf, why))
+            continue
+        tblocks = [b for b in re.split(r"(?m)^(?=Closed under the global context|Axioms:)", out4) if b.startswith("Closed under") or b.startswith("Axioms:")]
+        for i, n in enumerate(tprinted):
+            if i < len(tblocks) and tblocks[i].startswith("Closed under"):
+                closed.append(n)
+            else:
+                open_.append((n, tblocks[i][:300] if i < len(tblocks) else "no output"))
+        if not ctx.quick:
+            rc5, out5 = sh("timeout 1500 coqchk -o -Q theories CCT CCT.props.%s" % tf, 1600, COQ)
+            ok5 = rc5 == 0 and "Modules were successfully checked" in out5
+            m5 = re.search(r"\* Axioms:\s*(.*?)\n\s*\n", out5, re.S)
+            ax5 = (m5.group(1).strip() if m5 else "?")[:500]
+            ctx.notes.append("coqchk -o %s: %s; axioms: %s" % (tf, "modules successfully checked" if ok5 else "FAILED", ax5))
+            if not ok5 or ax5 != "<none>":
+                open_.append(("coqchk " + tf, out5[-400:]))
+    ctx.obligations["tie_names"] = tie_names
     notprinted = [n for n in names if n not in printed and not (pins_broken and n == pid + "_source_pinned")]
     if pins_broken:
         open_.append((pid + "_source_pinned", "; ".join(pins_broken)[:400]))
@@ -504,7 +544,7 @@ def finish(ctx, level_text=""):
     # implementation departs from the model under the property's relation WHILE THE MODEL IS THE PROVEN ONE: every obligation except
     # possibly the source pin is discharged.  If other obligations are broken (a regenerated part of the model changed, a proof no
     # longer goes through) a model/implementation difference says nothing about the property by itself and is reported as unfound.
-    model_intact = set(ctx.obligations.get("broken", [])) <= {ctx.pid + "_source_pinned"}
+    model_intact = set(ctx.obligations.get("broken", [])) <= ({ctx.pid + "_source_pinned"} | set(ctx.obligations.get("tie_names", [])))
     concrete = [(k, d) for k, d in real if k == "property" or (k == "correspondence" and model_intact)]
     others = [(k, d) for k, d in real if (k, d) not in [(a, b) for a, b in concrete]]
     if concrete:
